@@ -55,7 +55,7 @@ func c16Run(fs *Facts) {
 	}
 	// delete marker bookkeeping
 	if sw != nil {
-		save, dh := sw.Func("swamp", "SaveFunction"), sw.Func("swamp", "deleteHandler")
+		save, dh := sw.Func("swamp", "SaveFunction"), sw.Func("swamp", ccDeleteHandlerName(sw))
 		if save == nil || dh == nil {
 			fs.Tri("recreateDropsDeleteMarker", Unknown, swampPath)
 		} else {
